@@ -142,9 +142,11 @@ def check(ctx):
     f = ctx.fn(BM, "BootstrapElectionModel.get_aggregate_predictions")
     s = b.summarize(f, {"estimand": ("const", "margin")}, self_cls=bc)
     ret = s.ret()
-    ctx.require(ret[0] == "phi", f"{f.where()}: result is not 'top level ? adjusted : raw'")
-    nontop = am.non_classification_view(ret[3])
-    ret = am.non_classification_view(ret)
+    # views of the returned table below / at the top level, whatever the branch layout (C08's writer discipline is not judged here)
+    TOPC = ("call", ("attr", ("param", "self"), "_is_top_level_aggregate"), (("param", "aggregate"),), ())
+    ctx.require(any(x[0] == "phi" and x[1] == TOPC for x in ir.walk(ret)), f"{f.where()}: the result does not distinguish the top level (race-call adjustment)")
+    nontop = am.non_classification_view(ir.resolve_phi(ret, TOPC, False))
+    topv = am.non_classification_view(ir.resolve_phi(ret, TOPC, True))
     pm = F.col(nontop, ("const", "pred_margin"))
     pt = F.col(nontop, ("const", "pred_turnout"))
     core = _strip(pm)
@@ -157,16 +159,18 @@ def check(ctx):
                   {"R": "'results_margin'", "U": "'results_margin'", "N": "'pred_margin'"}, f.where())
         ctx.ob("C02.R4.same-turnout", f"{f.qualname}|pred_margin divided by pred_turnout", _strip(den) == _strip(pt), f.where(),
                "divisor is the vector reported as pred_turnout" if _strip(den) == _strip(pt) else "pred_margin is divided by something else than pred_turnout")
-    # writes to pred_margin after that: only in the top-level branch
-    top = ret[2]
-    extra = []
-    t = top
-    while t[0] == "setitem" and t is not nontop:
-        if t[1] is not nontop and t[2] != ("const", "pred_margin"):
-            extra.append(ir.show(t[2]))
-        t = t[1]
-        if t == nontop:
-            break
+    # the top-level view differs from the raw one only in pred_margin
+    def cols_of(t):
+        out = {}
+        while t[0] == "setitem":
+            out.setdefault(t[2], t[3])
+            t = t[1]
+        return out, t
+    ctop, btop = cols_of(topv)
+    cnon, bnon = cols_of(nontop)
+    extra = [ir.show(k) for k in set(ctop) | set(cnon) if k != ("const", "pred_margin") and ctop.get(k) != cnon.get(k)]
+    if btop != bnon:
+        extra.append("the underlying table")
     ctx.ob("C02.R4.adjust-guarded", f"{f.qualname}|only the guarded call adjustment rewrites the table", not extra, f.where(),
            "the top-level branch differs from the raw table only in pred_margin (race-call adjustment)" if not extra
            else f"top-level branch additionally rewrites {extra}")
